@@ -75,6 +75,7 @@ def run(ctx):
   C07.roll_pitch_range(ctx, 'EXTRACT/roll-pitch-range')
   C07.roll_gap_index(ctx, 'EXTRACT/roll-gap-index')
   C07.velocity_onsets(ctx, 'EXTRACT/velocity-onsets-only')
+  step_order(ctx)
   C07.drum_gap(ctx, 'EXTRACT/drum-gap')
   C07.note_perf_limit(ctx, 'EXTRACT/note-limit')
   C07.metric_limit(ctx, 'EXTRACT/metric-limit')
@@ -110,6 +111,47 @@ def run(ctx):
                fi.qualname, org, ' + sequence_start_time' if has_param else ''), construct='%s time origin' % fi.qualname)
   tempos(ctx)
   resolution(ctx)
+
+
+def step_order(ctx):
+  """Location-independent: the event sequence is a fixed point of render -> quantize -> extract only if the order in which the
+  events of ONE step are written is a function of what the rendered notes preserve: the step, note-on / note-off, the pitch, the
+  velocity bin.  to_sequence closes the *oldest* open note of a pitch at a NOTE_OFF, so when two notes of one pitch overlap it
+  does not preserve which onset belongs to which offset.  If the per-step order of the extractor uses the identity of the note an
+  event belongs to - its index in the list sorted by (start_time, ...) - a NOTE_OFF is placed according to the start of "its"
+  note, and after the round trip that is another note: NOTE_OFF events of different pitches at one step swap places
+  (witness: findings/F27_performance_step_order_demo.py)."""
+  fi = ctx.func('performance_lib:BasePerformance._from_quantized_sequence')
+  fn = fi.node
+  srt = [c for c in U.calls_in(fn) if dotted(c.func) == 'sorted' and c.args and not c.keywords and isinstance(c.args[0], ast.BinOp)]
+  for c in srt:
+    # sorted(onsets + offsets): whole-tuple comparison of the event tuples
+    parts = []
+    def leaves(n):
+      if isinstance(n, ast.BinOp) and isinstance(n.op, ast.Add):
+        leaves(n.left); leaves(n.right)
+      else:
+        parts.append(n)
+    leaves(c.args[0])
+    tuples = []
+    for p in parts:
+      x = U.expand_locals(fn, p, at=c)
+      if isinstance(x, (ast.ListComp, ast.GeneratorExp)) and isinstance(x.elt, ast.Tuple):
+        tuples.append((x.elt, x.generators[0]))
+    if len(tuples) < 2:
+      continue
+    for tup, gen in tuples:
+      # the enumerate index of the notes sorted by start time, used as the second sort component
+      idx = gen.target.elts[0].id if isinstance(gen.target, ast.Tuple) and isinstance(gen.iter, ast.Call) and dotted(gen.iter.func) == 'enumerate' and \
+          isinstance(gen.target.elts[0], ast.Name) else None
+      uses_identity = idx is not None and len(tup.elts) >= 2 and isinstance(tup.elts[1], ast.Name) and tup.elts[1].id == idx
+      is_off = any(isinstance(e, ast.Constant) and e.value is True for e in tup.elts)
+      if not is_off:
+        continue
+      ctx.ob('EXTRACT/step-order-invariant', fi, tup, not uses_identity, 'note-offs of one step are ordered by properties the rendered notes preserve' if not uses_identity else
+             'the note-off events of one step are ordered by %s, the rank of the note they belong to in the list sorted by start time: to_sequence pairs a NOTE_OFF with the oldest open '
+             'note of that pitch, so with two overlapping notes of one pitch the offsets change owner in the round trip and NOTE_OFF events of different pitches at that step come '
+             'back in another order' % idx, construct='per-step order of NOTE_OFF events is independent of which note they close', definite=True)
 
 
 def grid(ctx, fi, origins):
